@@ -394,7 +394,8 @@ static void idx_gen(Rng &rng, Plan &plan, bool thorough)
 {
 	gen_sched_params(rng, plan, thorough);
 	plan.setp("records", 1 + (int64_t)rng.size_skewed(thorough ? 60000 : 20000));
-	plan.setp("streams", rng.range(1, 4));
+	plan.setp("streams", rng.range(1, 6));
+	plan.setp("synth_file", rng.chance(650) ? 1 : 0);
 	plan.setp("api", (int64_t)rng.below(3));   // 0 index_decoder, 1 index_buffer_decode, 2 file_info_decoder
 	plan.setp("limit_mode", (int64_t)rng.below(5));
 	plan.setp("limit_frac", (int64_t)rng.below(1000));
@@ -415,7 +416,30 @@ static void idx_exec(const Plan &plan, Verdict &v)
 	uint32_t nblocks = api == 2 ? std::min<uint32_t>(nrec, 400) : 0;
 	Bytes index_raw;
 	lzma_index *built = lzma_index_init(nullptr);
-	if (api == 2) {
+	if (api == 2 && plan.p("synth_file", 0)) {
+		// many Records per Stream: the file-info decoder reads only Stream
+		// Headers, Footers and Indexes, so the Blocks are filler bytes. The
+		// limit has to cover the combined index plus the Index being decoded.
+		uint32_t per = std::max<uint32_t>(1, nrec / (uint32_t)streams);
+		for (int s = 0; s < streams; ++s) {
+			lzma_index *i = lzma_index_init(nullptr);
+			uint32_t n = s == 0 ? per : std::max<uint32_t>(1, per * (uint32_t)(1 + (s * 7 + (int)nrec) % 4) / 4);
+			for (uint32_t k = 0; k < n; ++k) lzma_index_append(i, nullptr, 8 + (lzma_vli)(k % 30) * 4, 1 + (lzma_vli)(k % 7777));
+			lzma_stream_flags sf; memset(&sf, 0, sizeof sf); sf.version = 0; sf.check = LZMA_CHECK_CRC32; sf.backward_size = lzma_index_size(i);
+			uint8_t hdr[LZMA_STREAM_HEADER_SIZE];
+			lzma_stream_header_encode(&sf, hdr);
+			file.insert(file.end(), hdr, hdr + sizeof hdr);
+			file.insert(file.end(), (size_t)lzma_index_total_size(i), 0x5a);
+			size_t at = file.size(), pos = 0;
+			file.resize(at + (size_t)lzma_index_size(i));
+			lzma_index_buffer_encode(i, file.data() + at, &pos, (size_t)lzma_index_size(i));
+			lzma_stream_footer_encode(&sf, hdr);
+			file.insert(file.end(), hdr, hdr + sizeof hdr);
+			lzma_index_end(i, nullptr);
+			if (s + 1 < streams) file.insert(file.end(), 4 * (size_t)(s % 3), 0);
+		}
+		v.count("reach.file_info_many_records_per_stream");
+	} else if (api == 2) {
 		for (int s = 0; s < streams; ++s) {
 			std::vector<size_t> bs(nblocks / (uint32_t)streams + 1, 1);
 			Bytes part(plain.begin(), plain.begin() + (long)std::min<size_t>(plain.size(), bs.size()));
